@@ -104,6 +104,8 @@ const (
 	AdvFuture      = "future"       // time far ahead of now
 	AdvTimeRegress = "time_regress" // time before genesis
 	AdvBadValidate = "bad_validate"
+	AdvNoChain     = "no_chain"     // empty chain id
+	AdvChainPrefix = "chain_prefix" // chain id cut short by one character
 )
 
 // Variant derives an adversarial header from canonical c.
@@ -120,6 +122,12 @@ func Variant(c *Header, kind string, salt uint32) *Header {
 		v.Lineage = 100 + salt%7
 	case AdvWrongChain:
 		v.Chain = c.Chain + "-x"
+	case AdvNoChain:
+		v.Chain = ""
+	case AdvChainPrefix:
+		if len(c.Chain) > 0 {
+			v.Chain = c.Chain[:len(c.Chain)-1]
+		}
 	case AdvFuture:
 		v.T = Epoch.UnixNano() + int64(10*365*24*time.Hour)
 	case AdvTimeRegress:
